@@ -112,6 +112,9 @@ def run(seed, tier, extra_cases=None, use_cache=True):
         jobs.append(dict(base, id=rid + "/p", scenarios="auto", max_scenarios=nscen))
         if i % 4 == 0:
             jobs.append(dict(base, id=rid + "/a", ddiast="absent", scenarios=[{"sid": "default", "resp": {}}]))
+        if i % 4 == 1 and base["entry"]:
+            # load order: the file is loaded first, the tracer installs its hooks afterwards, then the code runs
+            jobs.append(dict(base, id=rid + "/l", ddiast="late", scenarios=[{"sid": "default", "resp": {}}]))
         meta[rid] = {"alldsts": eff["alldsts"], "statdevs": sorted(statdevs.get(rid, []))}
     t1 = time.time()
     results = vlib.run_node_jobs("membrane.js", jobs, nproc=vlib.NCPU, timeout=1800)
@@ -159,6 +162,7 @@ def run(seed, tier, extra_cases=None, use_cache=True):
                 "reenter": any((v or {}).get("k") == "reenter" for v in resp.values()),
                 "absent": mode == "a", "ns_exists": bool(dd.get("exists")), "ns_keys": [str(x) for x in dd.get("keys", [])],
                 "ns_preserved": bool(dd.get("preserved", mode == "a")),
+                "late": mode == "l", "late_found": bool(dd.get("late_found")),
             })
             bycase[rrid] = {"name": st["cases"][rid]["name"], "code": st["cases"][rid]["code"],
                             "config": st["cases"][rid]["config"], "scenario": resp, "mode": mode,
